@@ -233,6 +233,12 @@ class Module:
                     self._consts[tgt] = fold(val, self._consts)
                 except _Unfoldable:
                     self._consts.pop(tgt, None)
+                    if isinstance(val, (ast.Tuple, ast.List)) and val.elts and all(isinstance(e, (ast.Tuple, ast.List)) for e in val.elts):
+                        # a table of rows whose cells are references to classes / functions ((Union, NoneType), (list, list)): kept symbolically
+                        try:
+                            self._consts[tgt] = fold(val, _SymEnv(self._consts))
+                        except _Unfoldable:
+                            pass
                     # NAME = helper(): a table built by a module-level initialiser function (loops over folded tables
                     # filling a local dict / list) is folded by evaluating that function on constants
                     if isinstance(val, ast.Call) and isinstance(val.func, ast.Name) and not val.keywords and val.func.id in self.defs:
